@@ -9,6 +9,7 @@
 #include "state.h"
 #include "gc.h"
 #include <stdio.h>
+#include <math.h>
 #include <stdlib.h>
 #include <string.h>
 #include <time.h>
@@ -425,6 +426,7 @@ static Janet v_bits_to_double(int32_t argc, Janet *argv) {
     uint64_t bits = (hi << 32) | (lo & 0xFFFFFFFFu);
     double d;
     memcpy(&d, &bits, 8);
+    if (d != d) d = (double) NAN;   /* never forge a nan-boxed pointer from a payload */
     return janet_wrap_number(d);
 }
 static Janet v_double_to_bits(int32_t argc, Janet *argv) {
